@@ -24,9 +24,12 @@ CONSTANTS
   HigherRanked,     \* every entry point demands for<'gc> FnOnce(&'gc Mutation<'gc>, ..)
   RetNamesBrand,    \* some entry point's result type may mention 'gc
   RefCollect,       \* &'gc T / Cell<Gc> / RefCell<Gc> / Static<Gc> can be part of a root (Collect without 'static)
-  FetchUnchecked    \* DynamicRootSet::fetch accepts a handle of another set / arena
+  FetchUnchecked,   \* DynamicRootSet::fetch accepts a handle of another set / arena
+  SlotCovariant     \* a WRITABLE slot type (GcBuilder and the slice / str builders) is covariant in its value type
 
-Places == {"frameA", "rootA", "handle", "outer", "ret", "static", "thread", "frameB", "rootB"}
+\* "heapRef": a plain reference &'gc T (from Gc::as_ref) stored INSIDE the arena's heap, where the collector does
+\* not see it: it outlives the callback that produced it and dangles when its referent is collected
+Places == {"frameA", "rootA", "handle", "outer", "ret", "static", "thread", "frameB", "rootB", "heapRef"}
 Legit  == {"frameA", "rootA", "handle"}
 
 VARIABLES at, recipe
@@ -59,12 +62,15 @@ FetchOther    == FetchUnchecked /\ Move("handle", "frameB", "fetch through anoth
 \* a reference / cell that the collector cannot see, kept in the root: it dangles after the next collection,
 \* i.e. the pointer has outlived the callbacks in which it was valid
 RootRef       == RefCollect /\ Move("frameA", "outer", "keep &'gc T / Cell<Gc> / Static<Gc> inside the root")
+\* a writable slot that is covariant in its value type: a slot made for Static<&'static X> (Collect because 'static)
+\* shrinks to a slot for Static<&'gc X>, is unwrapped and filled with a Gc::as_ref reference
+ShrinkSlot    == SlotCovariant /\ Move("frameA", "heapRef", "shrink a builder for &'static X, write a &'gc X into it, keep the Gc in the root")
 \* once outside, everything is possible
 Leak          == \E p \in {"outer", "ret"} : p \in at /\
                    \E q \in {"static", "thread", "frameB"} : at' = at \cup {q} /\ recipe' = Append(recipe, "use the escaped value") 
 
 Next == StoreRoot \/ ReadRoot \/ Stash \/ FetchSame \/ CaptureAssign \/ Return \/ StoreStatic \/ SendAway
-        \/ PassOther \/ StoreOther \/ FetchOther \/ RootRef \/ Leak
+        \/ PassOther \/ StoreOther \/ FetchOther \/ RootRef \/ ShrinkSlot \/ Leak
 Spec == Init /\ [][Next]_vars
 
 NoEscape == at \subseteq Legit
